@@ -22,14 +22,19 @@ Inductive op :=
 | OPush (c : Z)                  (* if ch := GetChannel(name); ch != nil { ch.PushMessage } *)
 | OFront (live closing ids : list Z)  (* ClientSessions.PushMsg{Ids: ids} on a front whose registered open connections are [live];
                                      [closing]: still registered, but closed at network level (Push fails; removal pending) *)
-| ODirect (f : Z) (ids : list Z). (* Service.PushMessageById / PushMessageByIds(front, ids): straight to the push implementation *)
+| ODirect (f : Z) (ids : list Z)  (* Service.PushMessageById / PushMessageByIds(front, ids): straight to the push implementation *)
+| OFrontSeq (live : list Z) (ps : list (list Z * list Z)).
+    (* several multi-id pushes, one after the other, on ONE front-end whose registered open connections are [live]:
+       each push = (ids, failing) where the write to the connections in [failing] fails THIS time only - the
+       connection stays open and registered (encoder refused the payload, send path recovered a panic) *)
 
 Inductive obs :=
 | BUnit
 | BBool (b : bool)
 | BNoChan
 | BPush (l : list (Z * list Z))  (* one entry per front the push implementation was called for *)
-| BDeliver (l : list Z).         (* connection ids that received the message, in order *)
+| BDeliver (l : list Z)          (* connection ids that received the message, in order *)
+| BDeliverSeq (l : list (list Z)). (* the same, per push of a sequence *)
 
 Definition init : st := [].
 
@@ -76,6 +81,7 @@ Definition step (s : st) (o : op) : st * obs :=
       end
   | OFront live closing ids => (s, BDeliver (front_push live closing ids))
   | ODirect f ids => (s, BPush [(f, ids)])
+  | OFrontSeq live ps => (s, BDeliverSeq (map (fun p => front_push live (snd p) (fst p)) ps))
   end.
 
 Fixpoint run_from (s : st) (ops : list op) : st * list obs :=
